@@ -23,11 +23,14 @@ U = ("U1", "U2", "U3")
 @prop("C01")
 def c01():
     if _q():
-        plans = [dict(universe=u, variant="core", depth=2) for u in U] + \
+        plans = [dict(universe=u, variant="core", depth=2) for u in U] + [dict(universe="U5", variant="core", depth=5, emitidx=False, allpaths=5, allpaths_cap=150),
+                                                                              dict(universe="U6", variant="core", depth=14, emitidx=False, walks=1500)] + \
                 [dict(universe=u, variant="extras", depth=7, simulate=25, emitidx=False, fan_keep=0.1) for u in U]
         hs, keys, modes = (0, 1), ("plain",), ("compiled",)
     else:
         plans = [dict(universe=u, variant="core", depth=3, emitidx=False) for u in U] + [dict(universe="U4", variant="core", depth=5, emitidx=False)] + \
+                [dict(universe="U5", variant="core", depth=6, emitidx=False, allpaths=6, allpaths_cap=600), dict(universe="U4", variant="core", depth=4, emitidx=False, allpaths=4, allpaths_cap=40),
+                 dict(universe="U6", variant="core", depth=18, emitidx=False, walks=12000), dict(universe="U6", variant="extras", depth=18, emitidx=False, walks=6000)] + \
                 [dict(universe=u, variant="extras", depth=12, simulate=150, emitidx=False, fan_keep=0.03) for u in U]
         hs, keys, modes = (0, 1), ("plain", "hostile"), ("compiled", "pure")
     v = me.run("C01", "model_checking",
